@@ -1250,7 +1250,7 @@ SDgetdimid(int32 sdsid, /* IN: dataset ID */
     }
 
     /* check if enough / too many dims */
-    if ((var->assoc == NULL) || (var->assoc->count < (unsigned)number)) {
+    if ((var->assoc == NULL) || (var->assoc->count <= (unsigned)number)) {
         HGOTO_ERROR(DFE_ARGS, FAIL);
     }
 
